@@ -8,6 +8,6 @@ CONSTANTS
   ParSets = {}
   MaxWrites = 0
   Maps = {}
-INVARIANTS TypeOK NoShortCircuit IndepComplement Acyclic ParamOK SharedConstraint ConWithinHad
+INVARIANTS TypeOK CascadeComplete IndepComplement Acyclic ParamOK SharedConstraint ConWithinHad
 POSTCONDITION TraceAccepted
 CHECK_DEADLOCK FALSE
